@@ -15,6 +15,7 @@ pub mod probe;
 pub mod rng;
 pub mod sig;
 pub mod w_channel;
+pub mod w_close;
 pub mod w_halflock;
 pub mod w_iter;
 pub mod w_reg;
